@@ -474,6 +474,71 @@ func jsonrtCorpus(c *Ctx, all []*rtTarget, cfg jsonrtCfg) {
 	}
 }
 
+// jsonrtWktCorpus: range boundaries of Timestamp / Duration, FieldMask paths, Value kinds.
+func jsonrtWktCorpus(c *Ctx, all []*rtTarget, cfg jsonrtCfg) {
+	setSN := func(t *rtTarget, secs int64, nanos int32) protoreflect.Message {
+		m := t.new()
+		if secs != 0 {
+			m.Set(rtField(m, 1), protoreflect.ValueOfInt64(secs))
+		}
+		if nanos != 0 {
+			m.Set(rtField(m, 2), protoreflect.ValueOfInt32(nanos))
+		}
+		return m
+	}
+	for _, fl := range []string{"gen", "dyn"} {
+		if t := jsonrtFind(all, "google.protobuf.Timestamp", fl); t != nil {
+			for _, sn := range [][2]int64{{rtMinTsSecs, 0}, {rtMaxTsSecs, 999999999}, {rtMinTsSecs - 1, 0}, {rtMaxTsSecs + 1, 0}, {0, -1}, {0, 1000000000},
+				{0, 0}, {-1, 999999999}, {951782400, 120000000}, {68169600, 450}, {-11644473600, 1000}} {
+				jsonrtOne(c, t, setSN(t, sn[0], int32(sn[1])), cfg)
+			}
+		}
+		if t := jsonrtFind(all, "google.protobuf.Duration", fl); t != nil {
+			for _, sn := range [][2]int64{{rtMaxDurSecs, 999999999}, {-rtMaxDurSecs, -999999999}, {rtMaxDurSecs + 1, 0}, {-rtMaxDurSecs - 1, 0},
+				{0, 1000000000}, {0, -1000000000}, {1, -1}, {-1, 1}, {0, -5}, {0, 5}, {-3, -500000000}, {7, 1000}, {0, 0}} {
+				jsonrtOne(c, t, setSN(t, sn[0], int32(sn[1])), cfg)
+			}
+		}
+		if t := jsonrtFind(all, "google.protobuf.FieldMask", fl); t != nil {
+			for _, paths := range [][]string{{}, {"foo"}, {"foo_bar", "a.b_c.d"}, {"fooBar"}, {"foo__bar"}, {"foo_3"}, {""}, {"a,b"}, {"foo_"}, {"_foo"}} {
+				m := t.new()
+				if len(paths) > 0 {
+					l := m.Mutable(rtField(m, 1)).List()
+					for _, p := range paths {
+						l.Append(protoreflect.ValueOfString(p))
+					}
+				}
+				jsonrtOne(c, t, m, cfg)
+			}
+		}
+		if t := jsonrtFind(all, "google.protobuf.Value", fl); t != nil {
+			for k := 0; k < 9; k++ {
+				m := t.new()
+				switch k {
+				case 0:
+				case 1:
+					m.Set(rtField(m, 1), protoreflect.ValueOfEnum(0))
+				case 2:
+					m.Set(rtField(m, 2), protoreflect.ValueOfFloat64(math.NaN()))
+				case 3:
+					m.Set(rtField(m, 2), protoreflect.ValueOfFloat64(-0.0*math.Copysign(1, -1)))
+				case 4:
+					m.Set(rtField(m, 3), protoreflect.ValueOfString("NaN"))
+				case 5:
+					m.Set(rtField(m, 4), protoreflect.ValueOfBool(false))
+				case 6:
+					m.Mutable(rtField(m, 5))
+				case 7:
+					m.Mutable(rtField(m, 6))
+				default:
+					m.Set(rtField(m, 2), protoreflect.ValueOfFloat64(math.Inf(-1)))
+				}
+				jsonrtOne(c, t, m, cfg)
+			}
+		}
+	}
+}
+
 func famJsonrt(c *Ctx) {
 	cfg := jsonrtCfg{emitC: true}
 	nrnd := c.N / 40
@@ -483,6 +548,7 @@ func famJsonrt(c *Ctx) {
 	all, heavy, rnd := rtTargets(c, nrnd)
 	c.StatN("linked_targets", len(all))
 	jsonrtCorpus(c, all, cfg)
+	jsonrtWktCorpus(c, all, cfg)
 	pool := rtAnyPool()
 	run := func(t *rtTarget) {
 		var m protoreflect.Message
@@ -496,7 +562,7 @@ func famJsonrt(c *Ctx) {
 			}()
 			m = t.new()
 			budget := 60 + c.Intn(200)
-			o := rtFillOpts{budget: &budget, unrep: c.Intn(5) == 0, unknown: false, dense: c.Intn(8) == 0, anyPool: pool}
+			o := rtFillOpts{budget: &budget, unrep: c.Intn(3) == 0, unknown: false, dense: c.Intn(8) == 0, anyPool: pool}
 			if c.Intn(12) != 0 {
 				rtFill(c, m, 1+c.Intn(3), o)
 			}
@@ -518,14 +584,7 @@ func famJsonrt(c *Ctx) {
 		spent++
 	}
 	for spent < c.N {
-		switch k := c.Intn(6); {
-		case k < 2 && len(rnd) > 0:
-			run(rnd[c.Intn(len(rnd))])
-		case k < 5 && len(heavy) > 0:
-			run(heavy[c.Intn(len(heavy))])
-		default:
-			run(all[c.Intn(len(all))])
-		}
+		run(rtPick(c, all, heavy, rnd))
 		spent++
 	}
 }
